@@ -58,7 +58,7 @@ func Exec(c *Case) (nontrivial bool, labels []string, fail *vlib.Failure) {
 		return vlib.ExecNCLoop(c.Hist, "C09", true, nil)
 	}
 	if c.Hist.Loop {
-		return execGNMILoop(c)
+		return vlib.ExecGNMILoop(c.Hist, "C09", true)
 	}
 	st := vlib.GetStats("C09")
 	ctx := context.Background()
